@@ -41,15 +41,17 @@ def default_fee(
     content: Dict[str, Any],
     gas_limit: Optional[int] = None,
     minimal_nanotez_per_gas_unit: Optional[int] = None,
+    extra_size: int = 32 + 64 + 3 * 3,
 ) -> int:
     """Take hard gas limit instead of precise amount (no simulation) and calculate fee.
 
     :param content: operation content {..., "kind": "transaction", ... }
+    :param extra_size: branch, signature, fee:gas_limit:storage_limit mutez values (+3 bytes)
     """
     return calculate_fee(
         content=content,
         consumed_gas=gas_limit if gas_limit is not None else default_gas_limit(content),
-        extra_size=32 + 64 + 3 * 3,  # branch, signature, fee:gas_limit:storage_limit mutez values (+3 bytes)
+        extra_size=extra_size,
         minimal_nanotez_per_gas_unit=minimal_nanotez_per_gas_unit,
     )
 
